@@ -87,6 +87,7 @@ MUTATING_FUNCS = {
     "delattr", "operator.setitem", "operator.delitem", "operator.iadd", "operator.imul",
     "operator.isub", "operator.itruediv", "heapq.heappush", "heapq.heappop", "heapq.heapify",
 }
+INPLACE_WHEN_COPY_FALSE = {"numpy.nan_to_num"}
 KIND_OF_FUNC = {"astropy.time.Time": "time", "baseband.open": "handle", "open": "handle",
                 "operator.index": "scalar", "int": "scalar", "float": "scalar", "len": "scalar",
                 "str": "str", "bool": "scalar", "math.ceil": "scalar", "math.floor": "scalar",
@@ -663,6 +664,13 @@ class _Ctx:
         if tag == "ext":
             dotted = res[1] or "?"
             self.an.api_used.add(dotted)
+            if dotted in INPLACE_WHEN_COPY_FALSE:
+                # np.nan_to_num(x, copy=False): "copy=False" means IN PLACE for these functions, not "avoid a copy if possible"
+                cp = next((k.value for k in e.keywords if k.arg == "copy"), e.args[1] if len(e.args) > 1 else None)
+                if cp is not None and not (isinstance(cp, ast.Constant) and cp.value is True) and args and args[0].roots:
+                    self.sink(self._cur_stmt, f"{dotted}(..., copy={norm(cp)}) replaces values in its first argument in place", args[0].roots)
+                    return view_of(args[0])
+                return FRESH
             if dotted in MUTATING_FUNCS:
                 if args and args[0].roots:
                     on_self = isinstance(e.args[0], ast.Name) and e.args[0].id == self.selfname
